@@ -535,11 +535,21 @@ func genC01(g *gen) {
 	}
 }
 
+// FNV-1a 64: fingerprint of long payloads (NOT the CRC-64: the CRC of a payload that ends with its own CRC is 0)
+func fnv1a(v []byte) uint64 {
+	h := uint64(0xcbf29ce484222325)
+	for _, b := range v {
+		h ^= uint64(b)
+		h *= 0x100000001b3
+	}
+	return h
+}
+
 func valRepr(v []byte) string {
 	if len(v) <= 40 {
 		return hx(v)
 	}
-	return fmt.Sprintf("%d:%016x", len(v), crc64bitwise(0, v))
+	return fmt.Sprintf("%d:%016x", len(v), fnv1a(v))
 }
 
 func runC01(f []string) string {
